@@ -278,6 +278,73 @@ def main(tier, seed):
                 validated += 1
                 if err:
                     violations.append(("wrong-solution", "request %s: %s" % (tag, err)))
+        # a valid request with very many departures (size in activities, not in bytes): two locations, a shuttle every
+        # minute in both directions for a day and a half; sent while small requests and health checks are in flight, which
+        # must not wait for it forever
+        if up and srv.poll() is None:
+            tag = "many_"
+            ndep = 2600 if tier == "quick" else 6000
+            base = {
+                "vehicleTypes": [{"id": "T0", "capacity": 100, "seats": 50, "maximalFormationCount": None}],
+                "locations": [{"id": "L0"}, {"id": "L1"}],
+                "depots": [{"id": "dep0", "location": "L0", "capacity": 5000,
+                            "allowedTypes": [{"vehicleType": "T0", "capacity": None}]}],
+                "routes": [{"id": "r0", "vehicleType": "T0",
+                            "segments": [{"id": "r0s0", "order": 0, "origin": "L0", "destination": "L1", "distance": 20000,
+                                          "duration": 1500, "maximalFormationCount": None}]},
+                           {"id": "r1", "vehicleType": "T0",
+                            "segments": [{"id": "r1s0", "order": 0, "origin": "L1", "destination": "L0", "distance": 20000,
+                                          "duration": 1500, "maximalFormationCount": None}]}],
+                "departures": [{"id": "d%d" % k, "route": "r%d" % (k % 2),
+                                "segments": [{"id": "d%d_s0" % k, "routeSegment": "r%ds0" % (k % 2),
+                                              "departure": instgen.iso(3600 + 60 * (k // 2)), "passengers": 40, "seated": 10}]}
+                               for k in range(ndep)],
+                "maintenanceSlots": [],
+                "deadHeadTrips": {"indices": ["L0", "L1"], "durations": [[0, 1800], [1800, 0]],
+                                  "distances": [[0, 21000], [21000, 0]]},
+                "parameters": instgen.gen_instance(random.Random(5), None)["parameters"],
+            }
+            base["parameters"]["forbidDeadHeadTrips"] = False
+            inst = nonce_instance(base, tag)
+            q = {"kind": "valid", "payload": json.dumps(inst), "inst": inst, "tag": tag}
+            side = []
+
+            def side_work():
+                time.sleep(1.0)
+                side.append(("health", request(port, "health", None, timeout=30)))
+                t2 = "beside_"
+                i2 = nonce_instance(instgen.gen_instance(rng, {"slots": "none"}), t2)
+                q2 = {"kind": "valid", "payload": json.dumps(i2), "inst": i2, "tag": t2}
+                q2["status"], q2["body"] = request(port, "valid", q2["payload"], timeout=150)
+                side.append(("solve", q2))
+            th = threading.Thread(target=side_work)
+            th.start()
+            q["status"], q["body"] = request(port, "valid", q["payload"], timeout=240)
+            th.join()
+            total += 3
+            counts["many(%d departures)->%s" % (ndep, q["status"])] = 1
+            if q["status"] != 200:
+                violations.append(("many-departures-request-not-answered", "POST /solve with a valid instance of %d departures -> %s %s"
+                                   % (ndep, q["status"], str(q["body"])[:100])))
+            else:
+                js = json.loads(q["body"])
+                segs = [x["departureSegment"] for x in js["schedule"]["departureSegments"]]
+                want = sorted(sg["id"] for dp in inst["departures"] for sg in dp["segments"])
+                validated += 1
+                if sorted(segs) != want:
+                    violations.append(("wrong-solution", "request %s: the answer does not list every departure segment of its instance exactly once" % tag))
+            for (k, v) in side:
+                if k == "health" and v[0] != 200:
+                    violations.append(("health-not-answered", "GET /health while a large solve is pending -> %s" % (v[0],)))
+                if k == "solve":
+                    counts["beside-many->%s" % v["status"]] = 1
+                    if v["status"] != 200:
+                        violations.append(("valid-request-not-answered", "small POST /solve sent while a large one is pending -> %s" % v["status"]))
+                    else:
+                        err = validate_solution(d, v, total)
+                        validated += 1
+                        if err:
+                            violations.append(("wrong-solution", "request %s: %s" % (v["tag"], err)))
     finally:
         srv.kill()
         srv.wait()
